@@ -152,19 +152,36 @@ func (c *Ctx) ruleFiatCongruences(cfg string) {
 			Rm := new(big.Int).Mod(R, l)
 			negRm := new(big.Int).Mod(new(big.Int).Neg(R), l)
 			nB, nH := 0, 0
+			// over the integers the residual of a conditional add-back must be exactly (2^256 + l)·B − 2^256·H with B the
+			// final borrow of the subtraction and H the final carry of the add-back: the SAME borrow that wrapped the
+			// difference selects the addition of l. Then 0 ≤ out < 2^256 and operands < l force H = B (B = 1 gives
+			// out = l − (b − a) + 2^256·(1 − H) with 0 < l − (b − a) < l, so H = 1; B = 0 gives H = 0), and the residual is B·l.
+			selB := new(big.Int).Add(R, l)
+			negR := new(big.Int).Neg(R)
+			exactTop := true
 			res.Terms(func(vars map[string]int, co *big.Int) {
 				m := new(big.Int).Mod(co, l)
 				if sp.topCarry && m.Sign() != 0 && len(vars) == 1 {
 					for v, e := range vars {
 						if e == 1 && strings.HasPrefix(v, "bh64") && m.Cmp(Rm) == 0 {
 							nB++
+							if co.Cmp(selB) != 0 {
+								exactTop = false
+							}
 							return
 						}
 						if e == 1 && strings.HasPrefix(v, "h64") && m.Cmp(negRm) == 0 {
 							nH++
+							if co.Cmp(negR) != 0 {
+								exactTop = false
+							}
 							return
 						}
 					}
+				}
+				if sp.topCarry && co.Sign() != 0 {
+					// a multiple of l selected by anything but the final borrow
+					exactTop = false
 				}
 				if new(big.Int).Mod(co, l).Sign() != 0 {
 					ok = false
@@ -186,11 +203,14 @@ func (c *Ctx) ruleFiatCongruences(cfg string) {
 			if sp.topCarry && !(nB == 1 && nH == 1) && !(nB == 0 && nH == 0) {
 				ok = false
 				why = fmt.Sprintf("residual is not 2^256·(final borrow − final carry): %d borrow and %d carry terms; %s", nB, nH, why)
+			} else if sp.topCarry && ok && !exactTop {
+				ok = false
+				why = "over the integers the residual is " + res.String() + ", not (2^256 + l)·B − 2^256·H for the final borrow B and final carry H: the add-back of l is not selected by the borrow that wrapped the difference, so the result is off by 2^256 mod l whenever the two differ"
 			}
 		}
 		o.OK = ok && bad == 0
 		if sp.topCarry && o.OK {
-			sp.desc += " up to 2^256·(final borrow − final carry), which vanishes when both operands are < l (the add-back of l carries out exactly when the subtraction borrowed; range argument, not decided)"
+			sp.desc += " up to 2^256·(final borrow − final carry), which vanishes when both operands are < l: over the integers the residual is exactly (2^256 + l)·B − 2^256·H with B the final borrow, so the add-back of l is selected by the very borrow that wrapped the difference and 0 ≤ out < 2^256 forces H = B"
 		}
 		o.Detail = fmt.Sprintf("%s: %s — polynomial identity over the input words with %d explicit carry/borrow/high-word symbols all cancelling; %d machine-operation obligations discharged (range out < l and saturation remain the generator's guarantee)", sp.name, sp.desc, len(res.Vars())+len(ov.Vars()), len(in.Obls))
 		if !o.OK {
@@ -200,5 +220,123 @@ func (c *Ctx) ruleFiatCongruences(cfg string) {
 			}
 		}
 		c.Set.Add(o)
+		switch sp.name {
+		// (not fiatScalarFromMontgomery: there X = (a + m·l)/2^256 < l already for every a < l, so its final
+		// subtraction never fires on a valid operand and demanding it would reject a correct simplification)
+		case "fiatScalarAdd", "fiatScalarMul", "fiatScalarToMontgomery":
+			c.Set.Add(fiatReduced(cfg, sp.name, o.Pos, d, ov, aV, bV))
+		}
 	}
+	c.ruleFiatCmov(cfg)
+}
+
+// fiatReduced: the routine ends in a conditional subtraction of l that really reduces. With X the minuend of the
+// LAST multi-word subtraction of the body (a complete borrow chain: first incoming borrow 0, each word's incoming
+// borrow the previous outgoing one), the subtrahend is exactly l and, C being the chain's final borrow [X < l],
+//
+//	out = C·X_low + (1 − C)·(X − l mod 2^256)
+//
+// as a polynomial identity: the unreduced sum is kept exactly when it is below l. With the textbook bound X < 2l
+// this is 0 ≤ out < l — the range half of the routine's contract, which the congruence alone does not give
+// (a selector taken from an earlier borrow, swapped arms or a dropped subtraction all keep out ≡ spec (mod l)).
+func fiatReduced(cfg, name, pos string, d *absint.LimbDom, ov, aV, bV *poly.Poly) report.Obligation {
+	o := report.Obligation{Rule: "FIAT-REDUCED", Key: "FIAT-REDUCED/" + name, Config: cfg, Pos: pos}
+	if len(d.SubLog) == 0 {
+		o.Detail = name + " contains no multi-word subtraction with a live borrow: its result is not conditionally reduced below l"
+		return o
+	}
+	C := d.SubLog[len(d.SubLog)-1].Out
+	chain, ok := d.BorrowChainRecs(C)
+	if !ok || len(chain) < 4 {
+		o.Detail = fmt.Sprintf("%s: the last subtraction of the body is not the top word of a complete borrow chain of at least 4 words", name)
+		return o
+	}
+	two := func(k uint) *big.Int { return new(big.Int).Lsh(big.NewInt(1), k) }
+	X, Y := d.R.Int(0), d.R.Int(0)
+	xlow, tlow := d.R.Int(0), d.R.Int(0)
+	for i, r := range chain {
+		w := two(uint(64 * i))
+		X = X.Add(r.X.Scale(w))
+		Y = Y.Add(r.Y.Scale(w))
+		if i < 4 {
+			xlow = xlow.Add(r.X.Scale(w))
+			diff := r.X.Sub(r.Y).Sub(r.In).Add(r.Out.Scale(two(64)))
+			tlow = tlow.Add(diff.Scale(w))
+		}
+	}
+	if k, isC := Y.IsConst(); !isC || k.Cmp(absint.L25519) != 0 {
+		o.Detail = fmt.Sprintf("%s: the final subtraction takes away %s, not l", name, Y.String())
+		return o
+	}
+	want := C.Mul(xlow).Add(d.R.Int(1).Sub(C).Mul(tlow))
+	if !ov.Equal(want) {
+		o.Detail = fmt.Sprintf("%s: the result is not [X < l]·X + [X ≥ l]·(X − l) for the minuend X of its final %d-word subtraction of l (selector, arms or words of the conditional move differ): the output need not be below l", name, len(chain))
+		return o
+	}
+	o.OK = true
+	o.Detail = fmt.Sprintf("%s: out = X if X < l, X − l otherwise, as a polynomial identity, X the minuend of the final %d-word subtraction of l and the selector its final borrow", name, len(chain))
+	if name == "fiatScalarAdd" {
+		if X.Equal(aV.Add(bV)) {
+			o.Detail += "; X = a + b exactly, so a, b < l give X < 2l and 0 ≤ out < l"
+		} else {
+			o.OK = false
+			o.Detail = name + ": the minuend of the final subtraction is not a + b"
+		}
+	} else {
+		o.Detail += " (X < 2l is the Montgomery bound for operands < l: not decided)"
+	}
+	return o
+}
+
+// ruleFiatCmov: the selection primitive the other rules take as given — out = arg2 if arg1 = 0, arg3 if arg1 = 1 —
+// evaluated from its body over symbolic 64-bit words.
+func (c *Ctx) ruleFiatCmov(cfg string) {
+	p := c.Prog(cfg)
+	o := report.Obligation{Rule: "FIAT-CMOV", Key: "FIAT-CMOV/fiatScalarCmovznzU64", Config: cfg}
+	f := c.anchor(p, "fiatScalarCmovznzU64")
+	if f == nil {
+		c.Set.Add(o)
+		return
+	}
+	o.Pos = p.Rel(f.Pos())
+	max64 := new(big.Int).Sub(new(big.Int).Lsh(big.NewInt(1), 64), big.NewInt(1))
+	for _, cv := range []int64{0, 1} {
+		d := absint.NewLimbDom(p, true)
+		d.Flat = true
+		d.NoCmovPrim = true
+		in := absint.New(p, d)
+		outP := absint.Ptr{Obj: in.NewObject("out", types.Typ[types.Uint64], absint.MkInt(0))}
+		x := d.Sym("x", big.NewInt(0), max64)
+		y := d.Sym("y", big.NewInt(0), max64)
+		out := in.Run(f, []absint.Val{outP, absint.MkInt(cv), x, y})
+		if out.Kind != absint.ExitReturn {
+			o.Detail = out.Undecided + out.PanicMsg
+			c.Set.Add(o)
+			return
+		}
+		got := valPoly(d, outP.Obj.Val)
+		want := d.R.Var("x")
+		if cv == 1 {
+			want = d.R.Var("y")
+		}
+		if got == nil || !got.Equal(want) {
+			gs := "a value with no polynomial form"
+			if got != nil {
+				gs = got.String()
+			}
+			o.Detail = fmt.Sprintf("fiatScalarCmovznzU64(arg1 = %d, x, y) yields %s, expected %s", cv, gs, want.String())
+			c.Set.Add(o)
+			return
+		}
+		for _, ob := range in.Obls {
+			if !ob.OK {
+				o.Detail = "machine-operation obligation fails: " + ob.Kind + " at " + ob.Pos + ": " + ob.Detail
+				c.Set.Add(o)
+				return
+			}
+		}
+	}
+	o.OK = true
+	o.Detail = "fiatScalarCmovznzU64(0, x, y) = x and (1, x, y) = y for all 64-bit words x, y (evaluated from the body; the callers' condition ∈ {0,1} is an obligation at each call)"
+	c.Set.Add(o)
 }
